@@ -289,6 +289,24 @@ impl BigU {
     }
 }
 
+/// a value with a destructor for the mirrored RawTable: creation and destruction are counted, so a
+/// value destroyed twice or a table that believes it holds more values than are alive shows up
+pub struct Dv {
+    pub v: u64,
+    live: std::rc::Rc<std::cell::Cell<i64>>,
+}
+impl Dv {
+    fn new(v: u64, live: &std::rc::Rc<std::cell::Cell<i64>>) -> Dv {
+        live.set(live.get() + 1);
+        Dv { v, live: live.clone() }
+    }
+}
+impl Drop for Dv {
+    fn drop(&mut self) {
+        self.live.set(self.live.get() - 1);
+    }
+}
+
 /// the free term algebra as a value type for the eda arena: evaluation with it records exactly which
 /// operation was applied to which operands in which order (nothing commutes, nothing cancels)
 #[derive(Clone, PartialEq, Eq, Debug)]
@@ -332,6 +350,8 @@ pub enum Spec {
     Fix(Ref, Vec<(u32, bool)>),
     Compose(Ref, u32, Ref),
     Care(Ref, Ref),
+    /// constrain(f, g) at a point x is f at the point of g closest to x (earlier variables weigh more)
+    Closest(Ref, Ref),
     Expr(EFn),
 }
 
@@ -372,6 +392,9 @@ pub struct Exec {
     pit_pos: usize,
     pub raw: RawTable<(u64, u64)>,
     pub raw_kind: u64,
+    /// the same history on a table whose values have a destructor (`needs_drop::<T>()` is true)
+    raw_d: RawTable<(u64, Dv)>,
+    raw_d_live: std::rc::Rc<std::cell::Cell<i64>>,
     raw_shadow: HashMap<u64, u64>,
     pub stats: HashMap<String, u64>,
     pub nontrivial: HashSet<u64>,
@@ -428,6 +451,8 @@ impl Exec {
             pit_pos: 0,
             raw: RawTable::new(),
             raw_kind: 0,
+            raw_d: RawTable::new(),
+            raw_d_live: std::rc::Rc::new(std::cell::Cell::new(0)),
             raw_shadow: HashMap::new(),
             stats: HashMap::new(),
             nontrivial: HashSet::new(),
@@ -805,6 +830,38 @@ impl Exec {
             Spec::Compose(f, v, g) => {
                 let gv = self.eval_at(*g, e)?;
                 self.eval_with(*f, e, &[(*v, gv)])?
+            }
+            Spec::Closest(f, g) => {
+                // walk g along x; wherever the branch x prefers is empty (the constant false, by
+                // canonicity), take the other one and flip that variable
+                let st = self.bdd().storage();
+                let zero = self.bdd().zero;
+                if *g == zero {
+                    return Ok(Some(false));
+                }
+                let mut cur = *g;
+                let mut flips: Vec<(u32, bool)> = vec![];
+                for _ in 0..10_000_000 {
+                    let i = cur.index() as usize;
+                    if i == 1 {
+                        break;
+                    }
+                    if i == 0 || i >= st.capacity() || !st.cell_flags(i).0 {
+                        return Err(format!("edge to cell {} which is not stored", i));
+                    }
+                    let n = *st.cell_value(i);
+                    let (lo, hi) = if cur.is_negated() { (-n.low, -n.high) } else { (n.low, n.high) };
+                    let xv = abit(e, n.variable);
+                    let (pref, other) = if xv { (hi, lo) } else { (lo, hi) };
+                    if pref == zero {
+                        flips.push((n.variable, !xv));
+                        cur = other;
+                    } else {
+                        cur = pref;
+                    }
+                }
+                drop(st);
+                self.eval_with(*f, e, &flips)?
             }
             Spec::Care(f, g) => {
                 if self.eval_at(*g, e)? {
@@ -1585,7 +1642,7 @@ impl Exec {
                     (Some(_), Some(x), Some(y)) => Some(self.tt_cr(is_c, x, y)),
                     _ => None,
                 };
-                self.pending_spec = Some(Spec::Care(rf, rg));
+                self.pending_spec = Some(if is_c { Spec::Closest(rf, rg) } else { Spec::Care(rf, rg) });
                 self.produce(if is_c { &["C10"] } else { &["C11"] }, e, |m| if is_c { m.constrain(rf, rg) } else { m.restrict(rf, rg) })
             }
             "expr" | "exprc" => {
@@ -2106,9 +2163,8 @@ impl Exec {
                             Some(p) => format!("{:?}", p),
                             None => "end".into(),
                         };
-                        if x.is_some() {
-                            self.pit = Some(it);
-                        }
+                        // (kept after the end as well: an exhausted iterator must stay exhausted)
+                        self.pit = Some(it);
                         out
                     }
                     Err(p) => {
@@ -2674,6 +2730,98 @@ impl Exec {
     // ------------------------------------------------------------------ RawTable
 
     fn step_raw(&mut self, toks: &[&str]) -> String {
+        let reply = self.step_raw_u(toks);
+        // the mirrored table with droppable values must answer identically (state dumps included)
+        let reply_d = self.step_raw_d(toks);
+        if let Some(rd) = reply_d {
+            if rd != reply && !reply.starts_with("panic") {
+                let cut = |x: &str| x.chars().take(160).collect::<String>();
+                self.fail(&["C19"], format!("the same history on RawTable<(u64, value with a destructor)> answers `{}`, on RawTable<(u64, u64)> `{}`", cut(&rd), cut(&reply)));
+            }
+            let held = self.raw_d.iter().len() as i64;
+            if self.raw_d_live.get() != held && !reply.starts_with("panic") {
+                self.fail(&["C19"], format!("{} values with a destructor are alive, the table holds {}", self.raw_d_live.get(), held));
+            }
+        }
+        reply
+    }
+
+    /// the mirrored operation; None when the operation is not mirrored
+    fn step_raw_d(&mut self, toks: &[&str]) -> Option<String> {
+        let kind = if toks[0] == "raw.new" { toks[1].parse().unwrap() } else { self.raw_kind };
+        let hk = move |k: u64| raw_hash(kind, k);
+        if toks[0] == "raw.new" {
+            // (a dropped RawTable does not destroy the values it still holds — that leak is outside the
+            // property and not modelled — so every table gets its own counter)
+            self.raw_d_live = std::rc::Rc::new(std::cell::Cell::new(0));
+        }
+        let live = self.raw_d_live.clone();
+        let r: Result<String, Box<dyn std::any::Any + Send>> = match toks[0] {
+            "raw.new" => {
+                self.raw_d = RawTable::new();
+                Ok("ok".into())
+            }
+            "raw.insert" => {
+                let k: u64 = toks[1].parse().unwrap();
+                let v: u64 = toks[2].parse().unwrap();
+                catch_unwind(AssertUnwindSafe(|| self.raw_d.insert(hk(k), |p| p.0 == k, (k, Dv::new(v, &live))))).map(|x| match x {
+                    Ok(i) => format!("Ok({})", i),
+                    Err(i) => format!("Err({})", i),
+                })
+            }
+            "raw.get" => {
+                let k: u64 = toks[1].parse().unwrap();
+                catch_unwind(AssertUnwindSafe(|| self.raw_d.get(hk(k), |p| p.0 == k).map(|p| p.1.v))).map(|x| match x {
+                    Some(v) => format!("some {}", v),
+                    None => "none".into(),
+                })
+            }
+            "raw.find" => {
+                let k: u64 = toks[1].parse().unwrap();
+                catch_unwind(AssertUnwindSafe(|| self.raw_d.find(hk(k), |p| p.0 == k))).map(|x| match x {
+                    Some(v) => format!("some {}", v),
+                    None => "none".into(),
+                })
+            }
+            "raw.fof" => {
+                let k: u64 = toks[1].parse().unwrap();
+                catch_unwind(AssertUnwindSafe(|| self.raw_d.find_or_free(hk(k), |p| p.0 == k))).map(|x| match x {
+                    Ok(i) => format!("Ok({})", i),
+                    Err(i) => format!("Err({})", i),
+                })
+            }
+            "raw.remove" => {
+                let k: u64 = toks[1].parse().unwrap();
+                catch_unwind(AssertUnwindSafe(|| self.raw_d.remove(hk(k), |p| p.0 == k).map(|p| p.1.v))).map(|x| match x {
+                    Some(v) => format!("some {}", v),
+                    None => "none".into(),
+                })
+            }
+            "raw.clear" => catch_unwind(AssertUnwindSafe(|| self.raw_d.clear())).map(|_| "ok".into()),
+            "raw.reserve" => {
+                let n: usize = toks[1].parse().unwrap();
+                catch_unwind(AssertUnwindSafe(|| self.raw_d.reserve(n))).map(|_| "ok".into())
+            }
+            "raw.iter" => catch_unwind(AssertUnwindSafe(|| self.raw_d.iter().map(|p| p.1.v).collect::<Vec<u64>>())).map(|v| format!("{:?}", v)),
+            "raw.len" => Ok(self.raw_d.iter().len().to_string()),
+            "raw.dump" => {
+                // statuses and counters only have to agree (compared against the other table's hook view)
+                let (a, la, fa) = self.raw_d.debug_slots();
+                let (b, lb, fb) = self.raw.debug_slots();
+                if a != b || la != lb || fa != fb {
+                    self.fail(&["C19"], format!("slot states differ between the two element types: len {} / {}, free {} / {}", la, lb, fa, fb));
+                }
+                return None;
+            }
+            _ => return None,
+        };
+        Some(match r {
+            Ok(x) => x,
+            Err(_) => "panic assert".into(),
+        })
+    }
+
+    fn step_raw_u(&mut self, toks: &[&str]) -> String {
         let kind = self.raw_kind;
         let hk = move |k: u64| raw_hash(kind, k);
         let res: Result<String, Box<dyn std::any::Any + Send>> = match toks[0] {
